@@ -50,6 +50,12 @@ class Srv(rpyc.Service):
     def exposed_boombig(self, key): self._hit(key); raise ValueError(BIG)
     def exposed_nested(self, key, cb): self._hit(key); return cb(key) + 1
     def exposed_stop(self, key): self._hit(key); raise StopIteration()
+    def exposed_odd(self, key): self._hit(key); raise Odd("not an Exception subclass", key)
+    def exposed_genexit(self, key): self._hit(key); raise GeneratorExit()
+
+
+class Odd(BaseException):
+    pass
 
 
 class Cli(rpyc.Service):
@@ -151,7 +157,7 @@ def run_stream(ctx, r, n_ops):
             break
         key += 1
         c = r.random()
-        kind = r.choice(["val", "val", "ref", "boom", "big", "bigtuple", "boombig", "nested", "stop"]) if c < 0.7 else "raw"
+        kind = r.choice(["val", "val", "ref", "boom", "big", "bigtuple", "boombig", "nested", "stop", "odd", "genexit"]) if c < 0.7 else "raw"
         if kind == "raw":
             raw_seq += 1
             shape = r.choice(["badshape", "badlabel", "stale", "nohandler", "unhashable", "arity"])
@@ -183,7 +189,7 @@ def run_stream(ctx, r, n_ops):
                 call, oc = (lambda k=key: root.nested(k, lambda x: x * 2)), [3, True]
                 acall = (rpyc.async_(root.nested), (key, lambda x: x * 2))
             else:
-                oc = {"ref": [3, True], "boom": [4, True], "big": [3, False], "bigtuple": [3, False], "boombig": [4, False], "stop": [4, True]}[kind]
+                oc = {"ref": [3, True], "boom": [4, True], "big": [3, False], "bigtuple": [3, False], "boombig": [4, False], "stop": [4, True], "odd": [4, True], "genexit": [4, True]}[kind]
                 call = (lambda k=key, m=kind: getattr(root, m)(k))
                 acall = (rpyc.async_(getattr(root, kind)), (key,))
         except EOFError:
@@ -264,7 +270,8 @@ def check_stream(ctx, model, b, expect, raw_reqs, usable, case):
     if not usable and not (b.crashes or b.server.closed):
         ctx.violation("connection-unusable-after-stream", case, observed="ping failed", expected="ping ok", what="connection not usable after the request stream")
     if (b.crashes or b.server.closed):
-        ctx.violation("reply-encode-failure-escapes-dispatch", case, observed={"crash": b.crashes[:1]}, expected="connection stays up",
+        enc = (not b.crashes) or any(("Exceeds the limit" in c or "RecursionError" in c or "struct.error" in c) for c in b.crashes)
+        ctx.violation("reply-encode-failure-escapes-dispatch" if enc else "exception-escapes-dispatch:" + b.crashes[0].split("(")[0], case, observed={"crash": b.crashes[:1]}, expected="connection stays up",
                       what="an answer the serializer rejects while encoding escaped _dispatch_request and ended the connection")
     # ---- model
     if model is None:
